@@ -29,8 +29,8 @@ def run(chk):
   hits = {}
   for cfg, num, depth in ([('C01_sim.cfg', 400, 30), ('C01_sim_obj.cfg', 250, 30), ('C01_sim_td.cfg', 250, 30),
                            ('C01_sim_typed.cfg', 300, 30)] if not thorough else
-                          [('C01_sim.cfg', 6000, 40), ('C01_sim_obj.cfg', 3000, 40), ('C01_sim_td.cfg', 3000, 40),
-                           ('C01_sim_typed.cfg', 4000, 40)]):
+                          [('C01_sim.cfg', 4000, 40), ('C01_sim_obj.cfg', 2000, 40), ('C01_sim_td.cfg', 2000, 40),
+                           ('C01_sim_typed.cfg', 2500, 40)]):
     h = symtree_check.replay_simulated(chk, cfg, CLAUSES, num, depth, chk.seed, batches=1 if not thorough else 8)
     for k, v in h.items():
       hits[k] = hits.get(k, 0) + v
